@@ -181,10 +181,15 @@ class Route(Generic[Interface]):
         match = self.re_pattern.fullmatch(path)
         if match is None:
             return False, {}
-        return True, {
-            name: self.path_convertors[name].to_python(value)
-            for name, value in match.groupdict().items()
-        }
+        try:
+            return True, {
+                name: self.path_convertors[name].to_python(value)
+                for name, value in match.groupdict().items()
+            }
+        except ValueError:
+            # The text has the shape of the type but denotes no value of it,
+            # e.g. "2021-13-45" for a date: the route does not match.
+            return False, {}
 
 
 @mypyc_attr(allow_interpreted_subclasses=True)
